@@ -91,8 +91,10 @@ def data_slice(fn, start_nodes, defs=None):
 
 
 class Algebra:
-    def __init__(self, fn, names=True, inline=True, rename=None, opaque_calls=True):
+    def __init__(self, fn, names=True, inline=True, rename=None, opaque_calls=True, cfg=None, symmetric=()):
         self.fn = fn
+        self.cfg = cfg  # when given, a local with one later plain assignment dominating the use is inlined too
+        self.symmetric = set(symmetric)  # callees whose two arguments commute: argument keys are sorted in the symbol name
         self.defs = LocalDefs(fn)
         self.names = names
         self.inline = inline
@@ -119,6 +121,12 @@ class Algebra:
         if k == "DeclRefExpr":
             if n.get("dk") in ("local", "staticlocal") and self.inline:
                 init = self.defs.single_def(n.get("d"))
+                if init is None and self.cfg is not None:
+                    ws = self.defs.writes.get("v%d" % n.get("d"), [])
+                    if len(ws) == 1 and ws[0].k == "BinaryOperator" and ws[0].op == "=" and self.cfg.dominates(ws[0], n) and ws[0].i != n.i:
+                        loops = [a for a in ws[0].ancestors() if a.k in ("ForStmt", "WhileStmt", "DoStmt")]
+                        if not loops:
+                            init = ws[0].c[1]
                 if init is not None and self.depth < 30:
                     self.depth += 1
                     try:
@@ -154,4 +162,24 @@ class Algebra:
             return {"+": a + b, "-": a - b, "*": a * b, "/": a / b}[n.op]
         if k == "CXXOperatorCallExpr" and n.op == "-" and len(n.c) == 1:
             return -self.expr(n.c[0])
-        return self.sym(key(n, self.names))
+        if k == "CallExpr" and n.callee in ("pow", "std::pow", "powf") and len(n.c) == 2:
+            return sympy.Pow(self.expr(n.c[0]), self.expr(n.c[1]))
+        if k == "CallExpr" and n.callee in ("sqrt", "std::sqrt", "sqrtf") and len(n.c) == 1:
+            return sympy.sqrt(self.expr(n.c[0]))
+        if k == "CallExpr" and n.callee in ("exp", "std::exp", "expf") and len(n.c) == 1:
+            return sympy.exp(self.expr(n.c[0]))
+        if k == "CallExpr" and n.callee in ("log", "std::log", "logf") and len(n.c) == 1:
+            return sympy.log(self.expr(n.c[0]))
+        return self.sym(self.symkey(n))
+
+    def symkey(self, n):
+        """canonical key with single-definition locals inlined; commuting arguments sorted"""
+        sub = getattr(self, "_sub", None)
+        if sub is None:
+            sub = self._sub = {d: self.defs.single_def(d) for d in self.defs.decl} if self.inline else {}
+        k = key(n, self.names, sub)
+        if n.is_call() and n.callee in self.symmetric and len(n.call_args()) == 2 and n.k == "CallExpr":
+            a, b = sorted(key(x, self.names, sub) for x in n.call_args())
+            k = "%s(%s,%s)" % (n.callee, a, b)
+        return k
+
